@@ -190,7 +190,7 @@ def run(prog, rep):
                   "%d of %d deferred evaluations are wrapped with their stored origin" % (good, len(calls)))
         if fn in ("evaluate", "evaluate_all") and ty.endswith("LazyStore"):
             # debug_info is the thunk's own
-            dis = [canon_full(tr.local(l)) for l, d in enumerate(body.locals) if d.get("name") == "debug_info"]
+            dis = [canon_full(tr.local(l)) for l, d in enumerate(body.locals) if d.get("name") and "DebugInfo" in f.ty(d["ty"]).s and l > body.arg_count]
             rep.check(bool(dis) and all(re.search(r"\.debug_info\)$", x) for x in dis), "E2.x-d", "%s :: the thunk's own origin" % f.id, f.loc(), "debug_info = thunk.debug_info.clone()", "debug info does not come from the forced thunk: %s" % dis)
     # ---- (e) conflicts name both
     rep.rule("E2.x-e", "DuplicateAttribute / DuplicateVariable found during lazy evaluation are wrapped with the pair (previous, current) context; the pair conversion keeps both entries")
